@@ -4,7 +4,7 @@
    results look like: the dicts have distinct keys and split_host_and_port only ever
    cuts the netloc at its last colon. *)
 From Coq Require Import List NArith Bool Arith Lia.
-From TV Require Import Lib.Obs C43.Model C43.Spec C43.ProofsStart.
+From TV Require Import Lib.Obs C43.Model C43.Model2 C43.Spec C43.ProofsStart.
 Import ListNotations.
 Local Open Scope N_scope.
 
@@ -79,6 +79,27 @@ Proof.
       * left. eexists _, _. split; [reflexivity|apply to_dict_keys_nodup].
   - left. eexists _, _. split; [reflexivity|apply to_dict_keys_nodup].
 Qed.
+
+(* ---------- _parseparam ---------- *)
+(* _parseparam loses nothing: re-joining the fields with ';' gives the line back *)
+Lemma split_params_join s : forall inq esc cur,
+  rev cur ++ s = join_with 59 (fst (split_params s inq esc cur) :: snd (split_params s inq esc cur)).
+Proof.
+  induction s as [|c s IH]; intros inq esc cur.
+  - cbn. apply app_nil_r.
+  - assert (Hstep : forall i e, rev cur ++ c :: s
+              = join_with 59 (fst (split_params s i e (c :: cur)) :: snd (split_params s i e (c :: cur)))).
+    { intros i e. rewrite <- IH. cbn [rev]. rewrite <- app_assoc. reflexivity. }
+    cbn [split_params]. destruct inq.
+    + destruct esc; [apply Hstep|]. destruct (c =? 92); [apply Hstep|]. destruct (c =? 34); apply Hstep.
+    + destruct (c =? 59) eqn:E.
+      * apply N.eqb_eq in E. subst c. specialize (IH false false []). cbn [rev app] in IH.
+        destruct (split_params s false false []) as [f fs]. cbn [fst snd] in *.
+        change (join_with 59 (rev cur :: f :: fs)) with (rev cur ++ 59 :: join_with 59 (f :: fs)).
+        rewrite <- IH. reflexivity.
+      * destruct (c =? 34); apply Hstep.
+Qed.
+
 
 (* ---------- split_host_and_port ---------- *)
 Lemma uni_dec_none_absorbs ds : fold_left (fun acc d => match acc, uni_digit_val d with
